@@ -760,21 +760,26 @@ impl Scenario for Wire {
         "C01"
     }
     fn variants(&self, tier: &str) -> Vec<Value> {
-        let lim = if tier == "thorough" { 6 } else { 2 };
-        vec![
-            json!({"stall": null, "bound": 16, "menu": lim}),
-            json!({"stall": 0, "bound": 16, "menu": lim}),
-            json!({"stall": 100, "bound": 1, "menu": lim}),
-            json!({"stall": 333, "bound": 2, "menu": lim}),
-            // the server closes the connection while writers are busy and the transport takes
-            // writes only in part: whatever is on the wire is still whole frames, each channel's
-            // a prefix of its program, CloseOk last
-            json!({"stall": null, "bound": 16, "menu": lim, "server_close": true}),
-            json!({"stall": 400, "bound": 16, "menu": lim, "server_close": true}),
-        ]
+        // narrow accept menus (2 sizes) everywhere; the thorough tier adds every variant again
+        // with wide menus (6 sizes) at the quick bound and takes the narrow ones one deeper
+        let mut v = Vec::new();
+        for lim in if tier == "thorough" { vec![2usize, 6] } else { vec![2usize] } {
+            v.extend(vec![
+                json!({"stall": null, "bound": 16, "menu": lim}),
+                json!({"stall": 0, "bound": 16, "menu": lim}),
+                json!({"stall": 100, "bound": 1, "menu": lim}),
+                json!({"stall": 333, "bound": 2, "menu": lim}),
+                // the server closes the connection while writers are busy and the transport takes
+                // writes only in part: whatever is on the wire is still whole frames, each channel's
+                // a prefix of its program, CloseOk last
+                json!({"stall": null, "bound": 16, "menu": lim, "server_close": true}),
+                json!({"stall": 400, "bound": 16, "menu": lim, "server_close": true}),
+            ]);
+        }
+        v
     }
-    fn bound(&self, tier: &str, _p: &Value) -> usize {
-        if tier == "thorough" {
+    fn bound(&self, tier: &str, p: &Value) -> usize {
+        if tier == "thorough" && p["menu"] == 2 {
             3
         } else {
             2
